@@ -1013,10 +1013,7 @@ fn enum_cases(max_len: usize, n_persist: usize) -> Box<dyn Iterator<Item = Case>
 
 /// Sessions: every sequence of length 0..=max_len over touches, bump, checkpoint, shutdown (that
 /// succeeds or cannot write its checkpoint) and restart, for managers that start at an ordinary
-/// generation; and, for managers that start within three generations of the u64 wrap, over the
-/// same alphabet with every bump directly followed by a checkpoint and no failing shutdown (two
-/// bumps without a checkpoint between them across the wrap leave a numerically larger file of a
-/// logically older generation behind — out of this section's scope).
+/// generation and for managers that start within three generations of the u64 wrap.
 fn lifecycle_cases(max_len: usize) -> Box<dyn Iterator<Item = Case> + Send> {
     let plain: Vec<Vec<Op>> = vec![
         vec![Op::Touch(0)],
@@ -1028,21 +1025,12 @@ fn lifecycle_cases(max_len: usize) -> Box<dyn Iterator<Item = Case> + Send> {
         vec![Op::Shutdown { fail: true }],
         vec![Op::Restart],
     ];
-    let wrap: Vec<Vec<Op>> = vec![
-        vec![Op::Touch(0)],
-        vec![Op::Touch(1)],
-        vec![Op::Touch(2)],
-        vec![Op::Bump, Op::Checkpoint],
-        vec![Op::Checkpoint],
-        vec![Op::Shutdown { fail: false }],
-        vec![Op::Restart],
-    ];
     let starts: Vec<(Option<u64>, Vec<Vec<Op>>)> = vec![
         (None, plain.clone()),
-        (Some(0xFFFF_FFFE), plain),
-        (Some(u64::MAX - 2), wrap.clone()),
-        (Some(u64::MAX - 1), wrap.clone()),
-        (Some(u64::MAX), wrap),
+        (Some(0xFFFF_FFFE), plain.clone()),
+        (Some(u64::MAX - 2), plain.clone()),
+        (Some(u64::MAX - 1), plain.clone()),
+        (Some(u64::MAX), plain.clone()),
     ];
     Box::new(starts.into_iter().flat_map(move |(start_gen, alpha)| {
         (0..=max_len).flat_map(move |len| {
@@ -1358,8 +1346,7 @@ fn main() {
             format!(
                 "every sequence of length 0..={max_len_life} over touch(k0|k1|k2), bump_generation, checkpoint_to_disk, shutdown, shutdown whose checkpoint cannot be written (a \
                  directory sits at the temporary file's path), restart (fresh manager + run_cycle(0,1), the harness touches no file: it must come up with the last \
-                 checkpoint written successfully) for managers starting at generation 1 and 0xFFFFFFFE; and over touch, bump+checkpoint, checkpoint, shutdown, restart \
-                 for managers starting at generation u64::MAX-2, -1, -0 (the wrap to 1); capacities 2 and 3"
+                 checkpoint written successfully) for managers starting at generation 1, 0xFFFFFFFE and u64::MAX-2, -1, -0 (the wrap to 1); capacities 2 and 3"
             ),
             move || lifecycle_cases(max_len_life),
             move |c: &Case| check("lru-sessions", c, &k1, replay),
